@@ -251,18 +251,25 @@ CHECKS = {
         technique="Coq proof (induction over the selected files, over operation histories and over call histories on a finite-map disk, reuse of the C02 round-trip theorems for all three end kinds) + vm_compute correspondence of per-step tree listings and of laws evaluated on the implementation's output from child-process runs of the real FileSet",
         design="5/C11"),
     "C16": dict(
-        text=("Theorems (closed under the global context): the boolean checker closest_ok decides the property's specification for "
-              "every population, filter, exclusion and timestamp (closest_ok_iff_spec: the answer is a candidate - a file meeting "
-              "[t-P, t+P) that passes filters and exclusions -, covers t whenever some candidate does, otherwise minimises the "
-              "end-point distance, and is absent exactly when there is no candidate; ties accepted). The model of find_closest - "
-              "exact-name short cut through C02's render, window of one sub-directory period, first covering file, else nearest end "
-              "point - meets that specification whenever coverages are well formed and the timestamp is at the resolution of the "
-              "names (model_meets_spec, none_iff_no_candidate, answer_is_candidate, exact_name_covers via C02); single-file filesets "
-              "answer with their file; the code as found is refuted (asis_refuted). Tie: FileSet.find_closest / fileset[t] / "
-              "fileset[t, filters] on harness-built trees, every answer judged inside Coq by the certified checker "
-              "(accepted_iff_spec makes every rejection a failing input)."),
-        note=COMMON_NOTE + " The candidate set is the brute-force specification of FileSet.find (C01), name parsing is C02's, exclusion periods C03's; Python re/glob/datetime exercised, not proved.",
-        technique="Coq proof of a certified relational checker (closest_ok <-> ClosestSpec) and of the algorithm model against the brute-force specification + differential execution judged inside Coq (vm_compute)",
+        text=("32 theorems (closed under the global context): the boolean checker closest_ok decides the property's specification "
+              "for every population, filter, exclusion and timestamp (closest_ok_iff_spec; it accepts exactly the covering "
+              "candidates, else exactly the minimisers: accepts_exactly_covering, accepts_exactly_minimisers); the model of "
+              "find_closest - exact-name short cut, window t -+ one fixed sub-directory period (366 d / 31 d / day / ...: "
+              "period_is_lookback), first covering file, else first nearest end point in find order (search_first_in_order, unique) "
+              "- meets that specification (model_meets_spec, none_iff_no_candidate, exact_name_covers via C02). The candidate set is "
+              "no longer assumed: composed with the algorithmic model of FileSet.find of C01 (directory walk, look-back, pruning) "
+              "the model returns, on every tree inside C01's hypotheses, the covering-or-nearest file among the files whose coverage "
+              "meets the window and that pass filters and exclusions, None iff there is none (closest_end_to_end), and equals the "
+              "flat model the correspondence runs (composed_is_flat_model); window edges (closed at t - P, open at t + P, covering "
+              "file of a neighbouring directory found, files two fixed-length directories away never returned) and the dispatch of "
+              "fileset[t] / fileset[t, filters] for datetime, str, tuple and list items (getitem_reads_closest, getitem_meets_spec) "
+              "are theorems; single-file filesets answer with their file; the code before fix c46288c is refuted. Tie on every run: "
+              "FileSet.find_closest / fileset[...] (datetime, pandas.Timestamp, str, tuples, lists) on harness-built and 57 directed "
+              "edge-case trees, histories on one object (vanished files, the same filter key asked before with another value), each "
+              "answer judged by the certified checker (accepted_iff_spec makes every rejection a failing input), the composed model "
+              "evaluated beside it with its hypotheses decided in Coq."),
+        note=COMMON_NOTE + " Trusted: find = its C01 model (C01's own tie), get_info (C02, compared per file), the template-to-layout split (decided per generated template and compared with the harness's own per tree), pandas string parsing, Python re/glob/datetime/numpy; timestamps whose window leaves the range of datetime are outside the theorems; np.datetime64 / datetime.date items are outside the documented interface (datetime or str).",
+        technique="Coq proof of a certified relational checker (closest_ok <-> ClosestSpec), of the algorithm model against the brute-force specification, and of its composition with the algorithmic model of FileSet.find (C01) on directory trees + differential execution of the real FileSet on generated and directed directory trees, judged inside Coq (vm_compute)",
         design="5/C16"),
     "C01": dict(
         text=("20 theorems (closed under the global context): the search algorithm of FileSet.find (end - 1 us, directory pruning "
@@ -322,22 +329,27 @@ CHECKS = {
         technique="Coq refinement proof (executable model = brute-force specification, induction over lists/bins, lia; certified output checker) + differential correspondence on generated call histories evaluated by vm_compute",
         design="5/C04"),
     "C14": dict(
-        text=("29 theorems over the reals about a hand model on lists built on kernels and the ISA table TRANSLATED from the source on "
-              "every run; every clause of the statement is a theorem of the model: integrate_column (trapz) equals the Riemann integral "
-              "(Coquelicot RInt) of the piecewise-linear interpolant over the whole range and segment by segment, is linear in y, "
-              "additive at every grid point, sign-reversing, unit-spaced by default and lane-wise on arrays of any rank; IWV >= 0 for "
-              "both formulations; over z = pressure2height(p, T_v), the code's own hydrostatic height of the moist column (virtual "
-              "temperature), the general IWV form minus the hydrostatic form is EXACTLY the sum of the layer defects "
-              "dp/(2g)(q0-q1)(rho0-rho1)/(rho0+rho1), is bounded by the largest layer contrast (r-1)+0.61|dx|+|dT|/T times the "
-              "hydrostatic form (and to second order), and tends to 0 (Un_cv) on every sequence of grids whose pressure ratios tend to "
-              "1 for profiles Lipschitz in ln p - a counterexample shows that the pressure step alone does not suffice; CRH = 1 for "
-              "the mixed-phase saturated profile and linear in q; pressure2height starts at 0, is strictly increasing, and for an "
-              "isothermal column lies within (RT/g) sum (r-1)^3/12 below (RT/g) ln(p0/p); the standard atmosphere is piecewise "
-              "linear and both addressings agree at the 8 tabulated levels. Not stated: convergence of each IWV quadrature to the "
-              "continuum integral. Tie: translation + interval enclosures proved in Coq on grids of 2-50 levels (ranks 1-4, every "
-              "axis, the moist-column composite included) + an exact-rational law sweep up to 1e4 levels (layer identity to 1e-12)."),
-        note=COMMON_NOTE + " numpy reshape/trapezoid/diff/cumsum and scipy interp1d are hand-modelled and tied by the enclosures; IEEE rounding bridged pointwise; the harness forms T_v (typhon has no virtual-temperature function); x given as an n-d array is not covered; real-number axioms, classic, funext in Print Assumptions.",
-        technique="Coq proof (lists over R, Coquelicot RInt, mean-value arguments, exact layer identity + bounds + limit, interval) on a hand model built on translated kernels + interval enclosures + exact-rational law sweep",
+        text=("45 theorems over the reals about a hand model on lists built on kernels and the ISA table TRANSLATED from the source on "
+              "every run; every clause of the statement is a theorem of the model for every input: integrate_column (trapz) is the "
+              "Riemann integral (Coquelicot RInt) of the piecewise-linear interpolant (whole range and segment by segment), linear, "
+              "additive at grid points, sign-reversing, unit-spaced by default and lane-wise on arrays of any rank; for an integrand "
+              "sampled on the grid it is the mean of two Coquelicot Riemann sums over fine pointed subdivisions "
+              "(trapz_is_mean_of_riemann_sums) and therefore converges to the Riemann integral on every sequence of monotone grids "
+              "(uniform or not, either direction) whose mesh tends to 0 (trapz_converges_to_integral), within (b-a) h^2 M / 12 for C^2 "
+              "and (b-a) h L / 2 for Lipschitz integrands on any grid with steps <= h; both forms of integrate_water_vapor inherit "
+              "this (limits -1/g int q dp and int rho_v dz for integrable, in particular continuous, profiles), with closed forms "
+              "and explicit bounds for an exponential vapour-density column and a quadratic specific-humidity column for all "
+              "parameter values; IWV >= 0; over z = pressure2height(p, T_v) the general form minus the hydrostatic form is EXACTLY "
+              "the sum of the layer defects, is bounded by the layer contrasts and tends to 0 under refinement (a counterexample "
+              "shows the pressure step alone does not suffice); CRH = 1 for the mixed-phase saturated profile and linear in q; "
+              "pressure2height starts at 0, is strictly increasing and lies within (RT/g) sum (r-1)^3/12 below (RT/g) ln(p0/p) for "
+              "an isothermal column; the standard atmosphere is piecewise linear and its two addressings agree at the tabulated "
+              "levels. Tie: translation of the kernels and the ISA table + interval enclosures proved in Coq on grids of 2-50 levels "
+              "(ranks 1-4, every axis, the moist-column composite included) + Coq-checked continuum cases (the implementation on "
+              "refined grids of the two analytic columns within the proved bound of the closed form) + law sweeps up to 1e4 levels "
+              "(saturated profiles from the Murphy-Koop formulas written out in the harness, levels on both regime boundaries)."),
+        note=COMMON_NOTE + " numpy reshape/trapezoid/diff/cumsum and scipy interp1d are hand-modelled and tied by the enclosures; IEEE rounding bridged pointwise (also on fine grids); a = b and one-sided C^2 hypotheses not stated; the harness forms T_v (typhon has no virtual-temperature function); x given as an n-d array is not covered; real-number axioms, classic, funext in Print Assumptions.",
+        technique="Coq proof (lists over R, Coquelicot RInt / Riemann_sum / filterlim, Peano-kernel error bound, exact layer identity + bounds + limits, interval) on a hand model built on translated kernels + interval enclosures + Coq-checked continuum cases + exact-rational law sweep",
         design="5/C14"),
     "C18": dict(
         text=("14 theorems about a list/real model of BMCI: window_sound - for S symmetric PSD with right inverse Sinv and a unit "
